@@ -1,4 +1,6 @@
 import N2k.Lemmas.ClaimReport
+import N2k.Lemmas.ClaimArb
+import N2k.Lemmas.ClaimConverge
 import N2k.Lemmas.SendGate
 import N2k.Lemmas.ClaimRxSlot
 /-!
@@ -89,56 +91,8 @@ theorem C03_arbitration (x : Inst) (ok : LibOK x) (ho : x.s.openState = 3) (src 
       r ≠ src ∧ (r = 254 ∨ (r ≤ 251 ∧ (siblings x.s.devs i).contains r = false)) ∧
       (∃ d', (handleClaim x src nm).s.devs[i]? = some d' ∧ d'.name = d.name ∧ d'.source = r) ∧
       (handleClaim x src nm).addressChanged = true ∧
-      (handleClaim x src nm).s.drv.sent = x.s.drv.sent ++ [frameOfClaim (d.name, r)]) := by
-  have dok := ok.dev hd
-  obtain ⟨d0, hd0, hsrc⟩ := findSourceDev_some hf
-  rw [hd] at hd0; cases hd0
-  have h254 : ¬ src = Gen.nullCanBusAddress := by unfold Gen.nullCanBusAddress; omega
-  have hlen := (List.getElem?_eq_some_iff.mp hd).1
-  constructor
-  · intro hlt
-    unfold handleClaim
-    simp only [h254, ↓reduceIte, hf, hd, hlt]
-    rw [sendClaim_spec x.s ok.send i d hd dok.src_lt]
-    refine ⟨?_, by rw [claimFrameL_eq d dok.src_lt, hsrc]⟩
-    apply List.ext_getElem?
-    intro k
-    simp only [List.getElem?_map]
-    by_cases hk : k = i
-    · subst hk; simp [List.getElem?_set_self hlen, hd, isACS_name, isACS_source]
-    · simp [List.getElem?_set_ne (Ne.symm hk)]
-  · intro hgt r
-    have hnlt : ¬ d.name < nm := by omega
-    have hne : ¬ d.name = nm := by omega
-    have hs' : d.source ≤ 251 := by omega
-    have so := search_ok false (siblings x.s.devs i) d.source d.endSource dok.2.1 dok.2.2
-    have hdist : dist d.source d.endSource ≤ 251 := by unfold dist; omega
-    have p := search_post false (siblings x.s.devs i) (dist d.source d.endSource) searchFuel d.source d.endSource hs'
-      (dok.2.2 hs') rfl (by unfold searchFuel; omega)
-    have v := p.valid hs' (dok.2.2 hs')
-    have hx1 : loseAddress x i d nm = getNextAddress x i false := by unfold loseAddress; rw [if_neg hne]
-    let sr := search false (siblings x.s.devs i) searchFuel d.source d.endSource
-    let nd : Dev := { d with source := sr.source, endSource := sr.endSource }
-    have hg : getNextAddress x i false =
-        { s := { x.s with devs := x.s.devs.set i nd }, addressChanged := x.addressChanged || sr.changed,
-          devInfoChanged := x.devInfoChanged } := by
-      unfold getNextAddress; simp only [hd, so.done, ↓reduceIte]; rfl
-    have g := getNextAddress_ok x ok i false
-    have hdi : (getNextAddress x i false).s.devs[i]? = some nd := by
-      rw [hg]; simp [List.getElem?_set_self hlen]
-    have hop : (getNextAddress x i false).s.openState = 3 := by rw [g.2.openState]; exact ho
-    have hfinal : handleClaim x src nm =
-        { getNextAddress x i false with s := startAddressClaim (getNextAddress x i false).s i } := by
-      unfold handleClaim
-      simp only [h254, ↓reduceIte, hf, hd, hnlt, hx1]
-    rw [hfinal, startAddressClaim_spec _ g.1.send hop i _ hdi (g.1.dev hdi).src_lt]
-    have hlen' : i < (getNextAddress x i false).s.devs.length := by rw [g.2.len]; exact hlen
-    refine ⟨by rw [← hsrc]; exact v.2, v.1, ⟨_, List.getElem?_set_self hlen', rfl, rfl⟩, ?_, ?_⟩
-    · rw [hg]
-      show (x.addressChanged || sr.changed) = true
-      rw [show sr.changed = true from p.changed]; simp
-    · simp only [g.2.sent]
-      rw [claimFrameL_eq _ (g.1.dev hdi).src_lt]
+      (handleClaim x src nm).s.drv.sent = x.s.drv.sent ++ [frameOfClaim (d.name, r)]) :=
+  handleClaim_arbitration x ok ho src nm i d hv hf hd
 
 /-! ## every own-address change is reported; the reported address is the transmitted one -/
 
@@ -227,6 +181,33 @@ theorem C03_converges_partial (x : Inst) (ok : LibOK x) (i : Nat) (d : Dev) (hd 
   by_cases h254 : (search false (siblings x.s.devs i) searchFuel d.source d.endSource).source = 254
   · exact Or.inl h254
   · right; simp only [p.endSame]; exact p.progress hs he h254
+
+/-- **C03_converges_two_nodes (liveness for the two-node contest; what this adds to `C03_converges_partial`).**
+Bus of two claimants with distinct NAMEs on the concrete model: node 0 a one-device library instance (open,
+well-formed, any timer state, NAME `n0`), node 1 a started ISO 11783-5 node `f0` with the higher NAME and any
+next-address choice `nx` (only `nx f0 ≠ f0.addr`, `< 256`). Both hold the same valid address `a = f0.addr` and their
+claims cross (each has the other's claim pending) — the state after simultaneous start-up on equal preferred addresses.
+For EVERY schedule `evs` of deliveries (any interleaving, any number of idle deliveries at empty inboxes):
+exactly `4 - k` deliveries found a pending frame, where `k ≤ 4` is the number still needed (`PhL`); no frame is ever
+created beyond these four; as long as `k ≠ 0` some node has a pending frame (so a schedule in which every pending frame
+is eventually delivered drives `k` to 0 after exactly 4 effective deliveries: the bound); and at `k = 0` the bus is
+quiescent, the library device (lower NAME) holds `a` and the foreign node has moved to `nx f0 ≠ a`.
+Not covered (still partial, `C03_converges_partial`): more than two nodes, several devices, the library with the
+higher NAME (symmetric shapes, not written out), timers/polls interleaved with the contest. -/
+theorem C03_converges_two_nodes (b0 : Bus) (n0 : Nat) (f0 : Iso.Node) (nx : Iso.Node → Nat)
+    (hlt : n0 < f0.name) (hn1 : f0.name < 2^64) (ha : f0.addr ≤ 251) (hnx : ∀ f, nx f < 256) (hne : nx f0 ≠ f0.addr)
+    (hnext : b0.next = nx) (h0 : Two b0 n0 f0.addr f0 [(f0.name, f0.addr)] [(n0, f0.addr)]) (evs : List Nat) :
+    ∃ k, k + eff b0 evs = 4 ∧ PhL n0 f0 nx k (run b0 (evs.map Ev.deliver)) ∧
+      (k ≠ 0 → ∃ i, i < (run b0 (evs.map Ev.deliver)).n ∧ ((run b0 (evs.map Ev.deliver)).node i).inbox ≠ []) ∧
+      (k = 0 → quiescent (run b0 (evs.map Ev.deliver)) ∧
+        claimants ((run b0 (evs.map Ev.deliver)).node 0).kind = [(n0, f0.addr)] ∧
+        claimants ((run b0 (evs.map Ev.deliver)).node 1).kind = [(f0.name, nx f0)]) := by
+  obtain ⟨k, hp, he⟩ := converge_run (PhL n0 f0 nx) (fun k b i h => phL_step n0 f0 nx hlt hn1 ha hnx hne k b h i) evs 4 b0
+    ⟨hnext, h0⟩
+  refine ⟨k, he, hp, fun hk => ?_, fun hk => ?_⟩
+  · obtain ⟨k', rfl⟩ : ∃ k', k = k' + 1 := ⟨k - 1, by omega⟩
+    exact phL_pending hp
+  · subst hk; exact phL_zero hp
 
 /-! ## the receive slots in front of the claim handler; a device without an address stays silent -/
 
@@ -390,5 +371,19 @@ example : Rx.findFree demoWrap.rx demoWrap.inst.s.now (ClaimRx.rawOf (frameOfCla
 def demoNull : Inst := { demoOpen with s := { demoOpen.s with devs := demoOpen.s.devs.set 0 (mkDev .t64 254 0x300) } }
 example : (ClaimRx.appSend demoNull { prio := 2, pgn := 127488, src := 15, dst := 255, len := 8, data := [1,2,3,4,5,6,7,8] } (some 0)).2 = false := by
   decide
+
+/-- hypotheses of `C03_converges_two_nodes` are satisfiable: library NAME 0x300 and foreign NAME 0x400 both at 251,
+claims crossed -/
+def demoX : Inst := { mkInst .t32 4294967000 1 40 [(251, 0x300)] with
+  s := { (mkInst .t32 4294967000 1 40 [(251, 0x300)]).s with openState := 3 } }
+def demoF : Iso.Node := ⟨0x400, 251, true, 251, true⟩
+def demoTwo : Bus :=
+  { n := 2, node := fun i => if i = 0 then ⟨.lib demoX, [frameOfClaim (0x400, 251)]⟩ else ⟨.foreign demoF, [frameOfClaim (0x300, 251)]⟩ }
+example : Two demoTwo 0x300 demoF.addr demoF [(demoF.name, demoF.addr)] [(0x300, demoF.addr)] ∧ (0x300 : Nat) < demoF.name ∧
+    Iso.nextAddr demoF ≠ demoF.addr := by
+  refine ⟨⟨rfl, ⟨demoX, rfl, libOK_of_fields _ _ (demoLib_ok 251 0x300 (by omega) (by omega)) rfl rfl rfl rfl rfl rfl rfl, rfl, rfl⟩,
+    rfl, rfl, rfl, rfl, ?_, ?_⟩, by decide, by decide⟩
+  · intro c hc; simp at hc; subst hc; exact ⟨by decide, by decide⟩
+  · intro c hc; simp at hc; subst hc; exact ⟨by decide, by decide⟩
 
 end N2k.C03
